@@ -194,7 +194,8 @@ class _CallPatchX86(_CallPatchImpl):
                 else:
                     raise NotImplementedError("unknown file format")
             elif isinstance(arg_value, int):
-                arg_str = str(arg_value)
+                # bool is an int; str(True) is not a number
+                arg_str = str(int(arg_value))
             else:
                 assert_never(arg_value)
 
